@@ -46,6 +46,8 @@ def _exec_max(ctx, fn, sites, region, _stack=()):
         t = load_table(ctx) if fn.qual == ENF + '.load_rules' else Table(
             prog, fn, max_paths=50000)
     except AnalysisError:
+        if fn.qual == ENF + '.load_rules':
+            raise       # the load step itself is not read: no verdict
         cache[key] = len([s_ for s_ in sites if s_[0] == fn.qual])
         return cache[key]
     best = 0
